@@ -747,7 +747,8 @@ def c12f(ctx, tu):
             t = lib.strip_casts(target)
             if isinstance(t, list) and t and t[0] == "member" and erase(t[1]) in BUILDER_POINTER:
                 n += 1
-                ok = f.qe.endswith("::set_sequence")
+                # the builder phase: set_sequence, or the IN_SEQUENCE clause itself when that helper is folded into it
+                ok = f.qe.endswith("::set_sequence") or f.qe.endswith("_modifier::in_sequence")
                 ctx.ob("C12.f", f.qe, ok, pattern=short_loc(e.get("loc", "")), unit=tu.name,
                        detail="" if ok else "%s replaces the sequence handler pointer %s; only set_sequence "
                        "(builder phase, before publication) may" % (f.qe, erase(t[1])))
